@@ -707,6 +707,35 @@ INF_WRAPPERS = [("list", "[%s]"), ("anon_record", "{ a: %s }"), ("named_record",
 INF_VARS = [("list", "let x = [];", "x.push(%s);"), ("option", "let x = Option.None;", "x = Option.Some(%s);")]
 
 
+# ---- import statements ---------------------------------------------------------------------------
+# the package: pkg.roto, a/mod.roto, a/b.roto, b.roto; every module declares fn f and fn g
+IMP_FILES = {"a/mod.roto": "fn f() -> i32 { 2 }\nfn g() -> i32 { 20 }\n", "a/b.roto": "fn f() -> i32 { 3 }\nfn g() -> i32 { 30 }\n",
+             "b.roto": "fn f() -> i32 { 4 }\nfn g() -> i32 { 40 }\n"}
+# statements: plain items and modules, lists, through the alias another statement introduces (b.f after `import a.b`,
+# x.f after nothing introduces x), missing targets, pairs that wait for each other (u -> v -> u), too many supers
+IMPORTS = ["import a.f;", "import a.b;", "import b.f;", "import b.g;", "import a;", "import pkg.a.b.f;", "import a.{f, g};",
+           "import b.zz;", "import x.f;", "import u.v;", "import v.u;", "import super.a;", "import a.b.{f, b.g};", "import f.g;"]
+IMP_PLACES = ["pkg", "submodule", "fn_body"]
+
+
+def render_imp(p):
+    place, stmts = IMP_PLACES[p[0] - 1], [IMPORTS[i - 1] for i in p[1:]]
+    text = " ".join(stmts)
+    files = dict(IMP_FILES)
+    root = "fn f() -> i32 { 1 }\nfn g() -> i32 { 10 }\n"
+    if place == "pkg":
+        root = text + "\n" + root + "fn probe() -> i32 { f() }\n"
+    elif place == "submodule":
+        files["b.roto"] = text + "\n" + files["b.roto"] + "fn probe() -> i32 { f() }\n"
+    else:
+        root = root + "fn probe() -> i32 { %s f() }\n" % text
+    children = [{"name": "a/mod.roto", "module": "a", "src": files["a/mod.roto"], "dir": True,
+                 "children": [{"name": "a/b.roto", "module": "b", "src": files["a/b.roto"]}]},
+                {"name": "b.roto", "module": "b", "src": files["b.roto"]}]
+    spec = {"name": "pkg.roto", "module": "pkg", "src": root, "dir": True, "children": children}
+    return {"k": "spec", "spec": spec}, "imp:" + place, stmts + ["impplace_" + place]
+
+
 def render_lit(p):
     kind, term, pre, ing = p[0], p[1], p[2], p[3:]
     opener, kname = LIT_KINDS[kind]
@@ -752,7 +781,8 @@ def families(tier):
     groups = ill_groups()
     small = [tokidx[n] for n in SMALL_TOKENS]
     lit = {"ing": [{"w": len(t.encode("utf-8")), "cls": c} for t, c in INGREDIENTS], "litlen": 3,
-           "litfull": 0 if tier == "quick" else 1, "nlitpre": len(LIT_PREFIXES), "ninfvar": len(INF_VARS), "nwrap": len(INF_WRAPPERS), "infdepth": 3}
+           "litfull": 0 if tier == "quick" else 1, "nlitpre": len(LIT_PREFIXES), "ninfvar": len(INF_VARS), "nwrap": len(INF_WRAPPERS), "infdepth": 3,
+           "nimp": len(IMPORTS), "implen": 2 if tier == "quick" else 3, "nimpplace": len(IMP_PLACES)}
     return {**lit, "ntok": len(TOKENS), "small": small, "plans": plans, "seeds": seeds, "replace": replace, "nsym": len(ALPHA),
             "ill": [len(m) for _, m in groups], "nnest": len(NEST), "depths": DEPTHS,
             "nslot": len(SLOTS), "maxfiles": maxfiles, "ncontent": len(CONTENTS)}
@@ -860,6 +890,8 @@ def render_descriptor0(d, root_dir):
         return render_lit(p)
     if fam == "inf":
         return render_inf(p)
+    if fam == "imp":
+        return render_imp(p)
     if fam == "seq":
         return render_seq(p)
     if fam == "mut":
@@ -1068,11 +1100,12 @@ def totality(tier, ev, verd, stats):
     # every outcome class was observed
     need_fams = (["seq:" + c for c, _ in CTXS] + ["mut:" + m for m in MUT_OPS.values()] +
                  ["ill:" + g for g, _ in ill_groups()] + ["nest:" + n for n, _ in NEST] + ["tree:disk", "tree:mem"] +
-                 ["lit:string", "lit:fstring"] + ["inf:" + v for v, _, _ in INF_VARS])
+                 ["lit:string", "lit:fstring"] + ["inf:" + v for v, _, _ in INF_VARS] + ["imp:" + x for x in IMP_PLACES])
     missing = [f for f in need_fams if not fam_count.get(f)]
     missing += [t for t, _ in TOKENS if not used_count.get(t)] + [a for a in ALPHA if not used_count.get(a)]
     missing += [sl for sl in SLOTS if not used_count.get(sl)] + [c for c, _ in CONTENTS if not used_count.get(c)]
     missing += [t for t, _ in INGREDIENTS if not used_count.get(t)] + [w for w, _ in INF_WRAPPERS if not used_count.get(w)]
+    missing += [t for t in IMPORTS if not used_count.get(t)]
     if missing:
         raise vlib.ToolError("input families / operators / token kinds never generated: %s" % missing)
     for need in ("ok", "err:parse", "err:type", "err:read"):
